@@ -123,7 +123,8 @@ RULE = ('frames of every length 0-512 x {random, all-equal, ramp, alternating, n
         'per protocol (ShowNet, SandNet, ESP Net, Pathport, Art-Net, E1.31 rev 3 and rev 2) real-node send->receive '
         'over the address space (universe/net/sub-net/port, priorities, sequence numbers incl. wrap, source names), '
         'same and different receiver address; E1.31 stream lifecycles on one receiver (n in 1..300 frames incl. 19/20/21 '
-        'and sequence wrap, TerminateStream, m frames of a new stream, receiver buffer compared after every frame); transmit DmxBuffers carry history (an earlier, longer frame left in the '
+        'and sequence wrap, TerminateStream, m frames of a new stream, receiver buffer compared after every frame) and one sender streaming N in {2..512} universes round-robin for 3+ '
+        'rounds to a receiver with handlers on a sample of them (both revisions); transmit DmxBuffers carry history (an earlier, longer frame left in the '
         '512-byte block; explicit dirty-block cases for Encode and ShowNet with short frames); Art-Net sender and receiver '
         'as separate nodes with 0/1/4 input ports and the address setters called in every order before/after Start(); '
         'non-trivial = complete encode / whole decode / datagram handled; '
@@ -154,7 +155,9 @@ LEVEL_TEXT = ('Coq theorems, for all frames of 1-512 slots and all addresses, ab
               '(RLE path and raw-when-lengths-collide), SandNet, ESP Net, Pathport, Art-Net (even-length padding) and '
               'E1.31 revisions 3 and 2: receive(build f) = the property\'s expected buffer over any old receiver '
               'buffer; c07_e131_stream_roundtrip: with a receiver that keeps its sequence/priority tracking state, every '
-              'frame of a stream of any length and of a stream restarted after TerminateStream is delivered; plus RunLengthEncoder lossless / bounded / false-iff-truncated / count bytes in 1..127 for all '
+              'frame of a stream of any length and of a stream restarted after TerminateStream is delivered; '
+              'c07_e131_multi_universe: for any interleaving of sends over any universes by one sender each handler sees '
+              'exactly the frames of its own universe (rev 3 proved; rev 2 multi-universe correspondence-tested); plus RunLengthEncoder lossless / bounded / false-iff-truncated / count bytes in 1..127 for all '
               'frames and capacities.  The models are tied to the C++ (real node objects, ASan/UBSan, datagram bytes '
               'compared) by a differential correspondence check; receivers are modelled with one handler and no '
               'previously tracked source.')
@@ -375,6 +378,14 @@ def gen_cases(rng, tier):
             fb = [rng.randrange(256) for _ in range(rng.choice([1, 3, 5, 24, 511]))]
             yield 'e1s %d %d %d %s %d %s' % (rng.choice([1, 2, 63999, rng.randrange(1, 65535)]),
                                              rng.choice([100, 100, 0, 1, 200]), n, hx(fa), m, hx(fb))
+    # ---- E1.31: ONE sender streaming N universes round-robin, receiver handlers on a sample of them
+    big = [2, 20, 236, 237, 240, 255, 256, 257, 512]
+    for rev2 in (0, 1):
+        for N in ([2, 20, 256, rng.choice([237, 240, 255, 512]), rng.choice([236, 257])] if quick else big + [3, 128, 300]):
+            idx = sorted(set([0, N - 1, rng.randrange(N), rng.randrange(N)]))
+            base = [rng.randrange(256) for _ in range(rng.choice([1, 2, 5, 24]) if N > 20 else rng.choice([1, 2, 24, 512]))]
+            yield 'e1m %d %d %d %d %d %s %s' % (rev2, rng.choice([1, 1000, 65534 - N]), N, 3 if quick else rng.choice([3, 4]),
+                                                rng.choice([100, 100, 0, 200]), ','.join(map(str, idx)), hx(base))
     if not quick:
         # all addresses of the small address spaces
         f = [1, 2, 3, 3, 3, 9]
@@ -409,6 +420,6 @@ def nontrivial(payload, md):
         return md.get('ret') == '1' and md.get('size') not in (None, '0')
     if op == 'dec':
         return md.get('dret') == '1' and md.get('dbuf') not in (None, 'none')
-    if op == 'e1s':
+    if op in ('e1s', 'e1m'):
         return md.get('spec') == '1'
     return md.get('handled') == '1'
